@@ -39,6 +39,13 @@ RULE = ("One feature with 1-2 scenarios of 1-3 steps. Every step function (befor
         "--logging-filter=-other/c18)}; step kinds setlvl / addh / rmh change the root logger's level / add a handler / remove the "
         "user's handler inside the scenario; the special scenario is first, middle, last or all of a 3-scenario run, so empty stdout, "
         "stderr and log buffers occur at every position; after every scenario no LoggingCapture of behave may sit on the root logger. "
+        "Root handler dimension: 0-3 pre-existing handlers on the root logger (added before the run and/or in before_all) x "
+        "--logging-clear-handlers on/off x 8 switches on 3-4 scenario programs: with log capture + clear-handlers no record emitted inside "
+        "a scenario reaches any of them; with log capture off every one receives every record in order; after each scenario the "
+        "handler list is IDENTICAL (same objects, same order) to the one the scenario's capture setup saw unless a step itself "
+        "changed it (then per handler: as before or as the step left it); after run() it equals the list after the last scenario. "
+        "Named-logger dimension: 0-3 handlers on the logger the steps log to x clear-handlers x 8 switches: with log capture + "
+        "clear-handlers none of them receives a record emitted inside a scenario. "
         "Volume dimension: a passing step emits N stdout lines, N stderr lines and N log records before the failing step, "
         "N = capacity-1, capacity, capacity+1, 2*capacity+1 where capacity is read at run time from the real LoggingCapture "
         "handler object (logging.handlers.BufferingHandler capacity, the only size constant in behave/capture.py and "
@@ -116,6 +123,17 @@ CONFIG_LEVELS = {"unset": ([], logging.INFO), "NOTSET": (["--logging-level=NOTSE
 def logvar(name):
     if name in LOGVARS:
         return LOGVARS[name]
+    if name.startswith("nl|"):
+        # nl|<handlers on the NAMED logger 'c18' (the one steps log to), added in before_all>|<clear 0/1>; root has the user handler
+        _, n, clear = name.split("|")
+        return {"args": ["--logging-clear-handlers"] if clear == "1" else [], "handler": True, "level": logging.INFO,
+                "filter": None, "clear": clear == "1", "named": int(n)}
+    if name.startswith("rh|"):
+        # rh|<handlers added before the run>|<handlers added in before_all>|<--logging-clear-handlers 0/1>
+        _, npre, nball, clear = name.split("|")
+        return {"args": ["--logging-clear-handlers"] if clear == "1" else [], "handler": False, "level": logging.INFO,
+                "filter": None, "clear": clear == "1", "npre": int(npre), "nball": int(nball),
+                "sinks": int(npre) + int(nball)}
     tag, where, rl, cl, h, clear, flt = name.split("|")
     assert tag == "rs"
     args, level = CONFIG_LEVELS[cl]
@@ -180,7 +198,7 @@ def route(chan, sw, lv, env=None):
         if has_extra or LOGSPEC[chan][1] < logging.WARNING:
             return "drop"
         return "cap" if sw[1] else "err"
-    if not sw[2] and has_extra and not lv["handler"] and not lv.get("basic"):
+    if not sw[2] and has_extra and r != "user" and not lv.get("basic"):
         return "drop"                         # a handler exists now: logging.lastResort is out of the game
     return r
 
@@ -197,7 +215,7 @@ def _route(chan, sw, lv):
         return "cap" if c else ("cap?" if c is None else "drop")
     if LOGSPEC[chan][1] < lv.get("root", USER_LEVEL):
         return "drop"                         # logging left intact: below the user's own root level
-    if lv["handler"]:
+    if lv["handler"] or lv.get("sinks"):
         return "user"
     if lv.get("basic"):
         return "err"                          # logging.basicConfig(): StreamHandler bound to the original stderr
@@ -322,11 +340,17 @@ def drive(scens, sw, lvname, vol=None):
     if lv.get("where") == "prerun" and lv["handler"]:
         root.addHandler(user)
     extra = ListHandler()
+    sinks = [ListHandler() for _ in range(lv.get("sinks", 0))]      # pre-existing root handlers ("rh|..." variants)
+    for h in sinks[:lv.get("npre", 0)]:
+        root.addHandler(h)
+    named = [ListHandler() for _ in range(lv.get("named", 0))]    # handlers on the named logger 'c18' ("nl|..." variants)
+    last_hs = [None]
     obs = {"produced": [], "ident": [], "snap": [], "escaped": None, "verdict": None, "env": {}}
     produced = obs["produced"]
     envlog = obs["env"]
     snap = [None]
-    st = {"override": None, "has_user": bool(lv["handler"]), "extra": False}     # what the scenario's own steps did
+    # what the scenario's own steps did
+    st = {"override": None, "has_user": bool(lv["handler"] or sinks), "extra": False, "touched": False}
 
     def env():
         return (st["override"], st["has_user"], st["extra"])
@@ -353,11 +377,19 @@ def drive(scens, sw, lvname, vol=None):
             # steps left it
             left_h = [h for h in want_h if h is not user or st["has_user"]] + ([extra] if st["extra"] else [])
             cnt = lambda xs, h: sum(1 for x in xs if x is h)     # noqa
-            ok_h = all(cnt(hs, h) in (cnt(want_h, h), cnt(left_h, h)) for h in hs + want_h + left_h)
+            same = len(hs) == len(want_h) and all(a is b for a, b in zip(hs, want_h))
+            if st["touched"]:
+                ok_h = all(cnt(hs, h) in (cnt(want_h, h), cnt(left_h, h)) for h in hs + want_h + left_h)
+                how = "ok" if ok_h else "differs"
+            else:
+                # the scenario's steps did not touch the handlers: identical list, same objects in the same order
+                ok_h = same
+                how = "ok" if same else ("permuted" if len(hs) == len(want_h) and all(cnt(hs, h) == cnt(want_h, h) for h in hs + want_h)
+                                         else "differs")
             n_lc = sum(1 for h in root.handlers if isinstance(h, LoggingCapture))
-            obs["snap"].append((where, ok_h,
-                                [type(h).__name__ for h in hs], [type(h).__name__ for h in want_h], lvl, want_l,
-                                st["override"], n_lc))
+            names = lambda xs: ["h%d" % sinks.index(h) if h in sinks else type(h).__name__ for h in xs]     # noqa
+            obs["snap"].append((where, ok_h, names(hs), names(want_h), lvl, want_l, st["override"], n_lc, how))
+            last_hs[0] = hs
             snap[0] = None
 
     sys.stdout, sys.stderr = s_out, s_err
@@ -379,9 +411,11 @@ def drive(scens, sw, lvname, vol=None):
                 if kind == "addh":
                     root.addHandler(extra)
                     st["extra"] = True
+                    st["touched"] = True
                 if kind == "rmh":
                     root.removeHandler(user)
-                    st["has_user"] = False
+                    st["has_user"] = bool(sinks)
+                    st["touched"] = True
                 if kind == "vol":
                     # capacity of the real handler object that is capturing right now (fresh instance if none is)
                     lc = getattr(ctx, "log_capture", None) if sw[2] else None
@@ -419,11 +453,18 @@ def drive(scens, sw, lvname, vol=None):
                 if lv["handler"] and user not in root.handlers:
                     root.addHandler(user)
                 root.setLevel(lv.get("root", USER_LEVEL))
-            st.update(override=None, has_user=user in root.handlers, extra=False)
+            st.update(override=None, has_user=user in root.handlers or any(h in root.handlers for h in sinks),
+                      extra=False, touched=False)
             snap[0] = snapshot()
 
         def before_all(ctx):
             ctx.config.setup_logging()
+
+        def before_all_rh(ctx):
+            for h in sinks[lv.get("npre", 0):]:
+                root.addHandler(h)
+            for h in named:             # after behave's run-level capture was set up, like a real before_all hook does
+                logging.getLogger("c18").addHandler(h)
 
         def after_scenario(ctx, scenario):
             note("after_scenario")
@@ -449,6 +490,8 @@ def drive(scens, sw, lvname, vol=None):
                         "after_feature": after_feature, "before_step": before_step, "after_step": after_step}
         if lv.get("basic"):
             runner.hooks["before_all"] = before_all
+        if lv.get("nball") or named:
+            runner.hooks["before_all"] = before_all_rh
         pbuf, qbuf = io.StringIO(), io.StringIO()
         runner.formatters = [IdentRecorder(note),
                              PlainFormatter(m["StreamOpener"](stream=pbuf), config),
@@ -458,6 +501,9 @@ def drive(scens, sw, lvname, vol=None):
         except BaseException as e:      # noqa
             obs["escaped"] = type(e).__name__
         note("after_run")
+        hs_now = [h for h in root.handlers if not isinstance(h, LoggingCapture)]
+        obs["after_run_handlers_same"] = (last_hs[0] is None or
+                                          (len(hs_now) == len(last_hs[0]) and all(a is b for a, b in zip(hs_now, last_hs[0]))))
         obs["steps"] = [[(s.status.name, s.error_message) for s in sc.steps] for sc in feat.scenarios]
         obs["scen"] = [(sc.status.name, sc.captured.output if sc.captured else u"") for sc in feat.scenarios]
         obs["plain"], obs["pretty"] = pbuf.getvalue(), qbuf.getvalue()
@@ -467,6 +513,9 @@ def drive(scens, sw, lvname, vol=None):
         root.handlers[:] = saved_handlers
         root.setLevel(saved_level)
         logging.raiseExceptions = saved_raise
+        logging.getLogger("c18").handlers[:] = []
+    obs["sinks"] = [list(h.msgs) for h in sinks]
+    obs["named"] = [list(h.msgs) for h in named]
     obs["out"], obs["err"], obs["user"] = s_out.getvalue(), s_err.getvalue(), list(user.msgs)
     return obs
 
@@ -501,6 +550,34 @@ def judge(scens, sw, lvname, obs, v):
         if got != want:
             v.append(({"subcheck": "passthrough", "clause": "log-records-lost-with-logcapture-off"},
                       "switches %s: user handler received %s, produced %s" % (sws, got[:12], want[:12])))
+
+    # pre-existing root handlers ("rh|" variants)
+    for hi, msgs in enumerate(obs.get("sinks", ())):
+        got = [mk for msg in msgs for mk in markers(msg)]
+        if sw[2] and lv["clear"]:
+            if got:
+                v.append(({"subcheck": "isolation", "clause": "cleared-root-handler-receives-records-while-log-capture-on",
+                           "root_handlers": "1" if len(obs["sinks"]) == 1 else ">=2"},
+                          "switches %s, %s: --logging-clear-handlers with log capture on, yet pre-existing root handler h%d "
+                          "(of %d) received %d records emitted inside scenarios: %s"
+                          % (sws, lvname, hi, len(obs["sinks"]), len(got), got[:6])))
+        elif not sw[2]:
+            want = [mk for mk in produced if rt[mk] == "user"]
+            if got != want:
+                v.append(({"subcheck": "passthrough", "clause": "log-records-lost-with-logcapture-off"},
+                          "switches %s, %s: root handler h%d received %s, produced %s" % (sws, lvname, hi, got[:12], want[:12])))
+    # handlers on the named logger the steps log to: --logging-clear-handlers "clears all other logging handlers"
+    for hi, msgs in enumerate(obs.get("named", ())):
+        got = [mk for msg in msgs for mk in markers(msg)]
+        if sw[2] and lv["clear"] and got:
+            v.append(({"subcheck": "isolation", "clause": "cleared-named-logger-handler-receives-records-while-log-capture-on",
+                       "logger_handlers": "1" if len(obs["named"]) == 1 else ">=2"},
+                      "switches %s, %s: --logging-clear-handlers with log capture on, yet handler #%d of %d on logger 'c18' received "
+                      "%d records emitted inside scenarios: %s" % (sws, lvname, hi, len(obs["named"]), len(got), got[:6])))
+    if obs.get("after_run_handlers_same") is False:
+        v.append(({"subcheck": "logging", "clause": "root-handlers-changed-between-last-scenario-and-end-of-run"},
+                  "switches %s, %s: the root logger's non-behave handlers after run() differ from those after the last scenario"
+                  % (sws, lvname)))
 
     # (2) failure report of the failing step
     executed = set(mkey(mk) for mk in produced)
@@ -599,7 +676,7 @@ def judge(scens, sw, lvname, obs, v):
                   "switches %s: run() raised %s" % (sws, obs["escaped"])))
 
     # (5) root logger restored at scenario end
-    for where, same_h, hs, want_h, lvl, want_l, step_level, n_lc in obs["snap"]:
+    for where, same_h, hs, want_h, lvl, want_l, step_level, n_lc, how in obs["snap"]:
         if n_lc:
             v.append(({"subcheck": "logging", "clause": "capture-handler-left-on-root-after-scenario"},
                       "switches %s, %s: at %s (after a scenario ended) %d LoggingCapture handler(s) of behave still sit on "
@@ -607,7 +684,8 @@ def judge(scens, sw, lvname, obs, v):
         if lvl == step_level and step_level is not None:
             lvl = want_l            # left as the scenario's own step set it: accepted (see ASSUMPTIONS)
         if not same_h:
-            v.append(({"subcheck": "logging", "clause": "root-handlers-not-restored", "clear_handlers": str(lv["clear"])},
+            v.append(({"subcheck": "logging", "clause": "root-handlers-not-restored", "clear_handlers": str(lv["clear"]),
+                       "how": how},
                       "switches %s, %s: at %s root handlers (non-behave) are %s, before the scenario %s"
                       % (sws, lvname, where, hs, want_h)))
         if lvl != want_l:
@@ -639,7 +717,7 @@ def run_case(case):
                 if sw[ci] and not any(CHAN_NAME[MARK.match(mk).group(1)] == cname for mk in mine):
                     classes.add("empty-%s-buffer@%s" % (cname, "first" if si == 0 else ("last" if si == len(scens) - 1 else "middle")))
     dg = (obs["verdict"], obs["escaped"], obs["produced"], obs["ident"],
-          [(w, a, l1, l2, n) for (w, a, _, _, l1, l2, _, n) in obs["snap"]],
+          [(w, a, hs, l1, l2, n, how) for (w, a, hs, _, l1, l2, _, n, how) in obs["snap"]], obs.get("sinks"), obs.get("named"),
           [[(s, sorted(set(markers(e)))) for s, e in sc] for sc in obs["steps"]],
           markers(obs["out"]), markers(obs["err"]), obs["user"], sorted(set(markers(obs["plain"]))),
           sorted(set(markers(obs["pretty"]))))
@@ -949,6 +1027,30 @@ def emission_cases(tier):
                         yield (prog, sw, lvname)
 
 
+def roothandler_cases(tier):
+    """0..3 pre-existing root handlers (added before the run and/or in before_all) x --logging-clear-handlers on/off x 8
+    switches on small programs with 3-4 scenarios"""
+    progs = [(("pass",), ("pass",), ("fail",)), (("fail",), ("pass",), ("pass",), ("error",)), (("pass",), ("addh",), ("fail",))]
+    if tier != "quick":
+        progs += [(("exec", "ha"), ("hb",), ("pass", "fail"), ("pass",)), (("kbi",), ("pass",), ("pass",)),
+                  (("pass qq",), ("pass",), ("fail qq",)), (("setlvl",), ("pass",), ("xfail",))]
+    for npre in range(4):
+        for nball in range(4 - npre):
+            for clear in "01":
+                for prog in progs:
+                    for sw in SWITCHES:
+                        yield (prog, sw, "rh|%d|%d|%s" % (npre, nball, clear))
+
+
+def namedlogger_cases(tier):
+    progs = [(("pass",), ("pass",), ("fail",)), (("fail",), ("exec",), ("error",))]
+    for n in range(4):
+        for clear in "01":
+            for prog in progs:
+                for sw in SWITCHES:
+                    yield (prog, sw, "nl|%d|%s" % (n, clear))
+
+
 def run(ctx):
     if ctx.quick:
         ctx.bounds = {"scenarios": "1-2", "steps_per_scenario": "all outcome sequences of length <= 2 (second scenario <= 1 when the first has 2, and vice versa)",
@@ -964,11 +1066,17 @@ def run(ctx):
                                        "one log record, only a DEBUG record, only a filtered-out logger}",
                                        "root_logger_changing_steps": list(STATE_KINDS), "scenarios": 3,
                                        "position_of_special_scenario": ["first", "middle", "last", "all"]}
+    ctx.bounds["pre_existing_root_handlers"] = {"count": [0, 1, 2, 3], "added": ["before the run", "in before_all", "both"],
+                                                "clear_handlers": [False, True], "scenarios": "3-4"}
     ctx.bounds["volume_N"] = ["%d*capacity%+d" % mo for mo in VOLUMES]
     ctx.sweep(run_case, cases(ctx.tier), chunk=48, name="outcome sequences x 8 capture switches x logging variants")
     ctx.sweep(volume_case, volume_cases(ctx.tier), chunk=2, name="volume: N lines/records around the log handler capacity")
     ctx.sweep(run_case, emission_cases(ctx.tier), chunk=48,
               name="emission profiles (silent / below level / filtered-out) and steps changing the root logger, 3 scenarios")
+    ctx.sweep(run_case, roothandler_cases(ctx.tier), chunk=16,
+              name="0-3 pre-existing root handlers (before the run / in before_all) x clear-handlers x 8 switches, 3-4 scenarios")
+    ctx.sweep(run_case, namedlogger_cases(ctx.tier), chunk=16,
+              name="0-3 handlers on the named logger the steps log to x clear-handlers x 8 switches")
     ctx.sweep(run_case, rootstate_cases(ctx.tier), chunk=48,
               name="initial root logger level {NOTSET,DEBUG,WARNING,CRITICAL} x config level x handlers {none,user}")
     if ctx.quick:
